@@ -123,17 +123,21 @@ def indexOfLink (l : List (Option Link)) (x : Link) : Option Nat :=
   let i := l.findIdx (· == some x)
   if i < l.length then some i else none
 
+/-- the rule of one router's ID table for one network interface: its identifier goes out through the port that
+    carries the link to the second node of the oracle's path -/
+def tableRule (sp : PathOracle) (c : Compiled) (rt : Router) (ni : NI) : D (MapRule Nat) := do
+  let some path := sp c.g rt.name ni.name | throw (.unconnected s!"No path between {rt.name} and {ni.name}")
+  let some nxt := path[1]? | throw (.internal "IndexError: shortest_path[1]")
+  let some e := c.g.findEdge rt.name nxt | throw (.internal "KeyError edge")
+  let some idx := indexOfLink rt.outgoing (linkOf c.g e) | throw (.internal "ValueError: not in list")
+  let idv ← match ni.id with
+    | .simple k => pure (k : Int)
+    | _ => throw (.internal "AttributeError: id")
+  pure ({ dest := idx, start := idv, stop := idv + 1, size := 1, desc := some ni.name } : MapRule Nat)
+
 /-- per-router ID table before and after `trim` -/
 def genRouterTable (sp : PathOracle) (c : Compiled) (rt : Router) : D (List (MapRule Nat)) := do
-  let rules ← c.nis.mapM fun ni => do
-    let some path := sp c.g rt.name ni.name | throw (.unconnected s!"No path between {rt.name} and {ni.name}")
-    let some nxt := path[1]? | throw (.internal "IndexError: shortest_path[1]")
-    let some e := c.g.findEdge rt.name nxt | throw (.internal "KeyError edge")
-    let some idx := indexOfLink rt.outgoing (linkOf c.g e) | throw (.internal "ValueError: not in list")
-    let idv ← match ni.id with
-      | .simple k => pure (k : Int)
-      | _ => throw (.internal "AttributeError: id")
-    pure ({ dest := idx, start := idv, stop := idv + 1, size := 1, desc := some ni.name } : MapRule Nat)
+  let rules ← c.nis.mapM (tableRule sp c rt)
   if !checkNoOverlap rules then throw (.overlap "Overlapping ranges")
   pure (trim rules)
 
